@@ -324,10 +324,10 @@ def get_func_source(func: Callable) -> str:
     """
     source = inspect.getsource(func)
 
-    # Try to trim away the decorators.
+    # Try to trim away the decorators. The function header may be indented with spaces or tabs.
     lines = source.split("\n")
     for i, line in enumerate(lines):
-        if re.match(r"^ *(async +)?def ", line):
+        if re.match(r"^[ \t]*(async[ \t]+)?def[ \t]", line):
             return "\n".join(lines[i:])
 
     return source
